@@ -379,6 +379,8 @@ def ok_exprs():
     E["rest_call"] = (lambda: A.Call(V("fr"), [(I(0), False), (V("xs"), True)]), "C14 C13")
     E["method"] = (lambda: A.Call(A.Prop(V("ob"), "get", False), []), "C14")
     E["method_two_dots"] = (lambda: A.Call(A.Prop(A.Prop(V("ob"), "inner", False), "get", False), []), "C14 C12")
+    E["short_slice"] = (lambda: A.RangeIndex(V("xs"), I(0), I(1)), "C11 C05")
+    E["short_string_slice"] = (lambda: A.RangeIndex(V("s"), I(0), I(1)), "C11 C15")
     E["slice_of_slice"] = (lambda: A.RangeIndex(A.RangeIndex(V("xs"), I(1), None), I(0), I(1)), "C11")
     E["method_two_steps"] = (lambda: A.Call(A.Prop(A.Index(V("ob"), S_("inner")), "get", False), []), "C14 C12")
     E["counter_closure"] = (lambda: A.call("nextc"), "C04 C14 C05")
